@@ -114,16 +114,18 @@ class RefFSM(object):
                 return [Outcome([N(6)], True, False, IDLE, stopped=True, name='stop')]
             return [Outcome([], True, False, IDLE, stopped=True, name='stop'),
                     Outcome([N(6)], True, False, IDLE, stopped=True, name='stop+cease')]
-        if e == 'T_CR':
-            return [NOP(st), ERR(5)]
+        if e in ('T_CR', 'T_DELAYOPEN'):
+            # the RFC stops ConnectRetryTimer (and DelayOpen is off) once the connection is up: an
+            # expiry in these states can only be a stale timer, which must be unobservable
+            return [NOP(st)]
         if e == 'T_HOLD':
+            if st != OPENSENT and self.H == 0:
+                return [NOP(st)]           # hold time 0: the timer is not running
             return [ERR(4)]
         if e == 'T_KA':
-            if st == OPENSENT:
-                return [NOP(st), ERR(5)]
+            if st == OPENSENT or self.H == 0:
+                return [NOP(st)]           # not running in OpenSent / with hold time 0
             return [Outcome([('KA',)], False, False, st, name='keepalive')]
-        if e == 'T_DELAYOPEN':
-            return [NOP(st), ERR(5)]
         if e == 'PEER_CLOSE':
             if st == OPENSENT:
                 return [Outcome([], False, False, IDLE, name='peer-close'),
@@ -143,6 +145,10 @@ class RefFSM(object):
                 return [ERR(2, 2)]
             if e == 'OPEN_HOLD':
                 return [ERR(2, 6)]
+            if e == 'OPEN_ID':
+                return [ERR(2, 3)]
+            if e == 'OPEN_OPTPARAM':
+                return [ERR(2, 4)]
             if e in ('KA', 'UPD', 'UPD_MALFORMED'):
                 return [ERR(5)]
             if e == 'NOTIF_VER':
@@ -154,8 +160,8 @@ class RefFSM(object):
         if st == OPENCONFIRM:
             if e == 'OPEN':
                 return [NOP(st), ERR(6, 7), ERR(5)]
-            if e in ('OPEN_VER', 'OPEN_AS', 'OPEN_HOLD'):
-                sub = {'OPEN_VER': 1, 'OPEN_AS': 2, 'OPEN_HOLD': 6}[e]
+            if e in ('OPEN_VER', 'OPEN_AS', 'OPEN_HOLD', 'OPEN_ID', 'OPEN_OPTPARAM'):
+                sub = {'OPEN_VER': 1, 'OPEN_AS': 2, 'OPEN_HOLD': 6, 'OPEN_ID': 3, 'OPEN_OPTPARAM': 4}[e]
                 return [NOP(st), ERR(2, sub), ERR(5), ERR(6, 7)]
             if e == 'KA':
                 return [Outcome([], False, False, ESTABLISHED, name='established')]
@@ -168,8 +174,8 @@ class RefFSM(object):
         if st == ESTABLISHED:
             if e == 'OPEN':
                 return [ERR(5)]
-            if e in ('OPEN_VER', 'OPEN_AS', 'OPEN_HOLD'):
-                sub = {'OPEN_VER': 1, 'OPEN_AS': 2, 'OPEN_HOLD': 6}[e]
+            if e in ('OPEN_VER', 'OPEN_AS', 'OPEN_HOLD', 'OPEN_ID', 'OPEN_OPTPARAM'):
+                sub = {'OPEN_VER': 1, 'OPEN_AS': 2, 'OPEN_HOLD': 6, 'OPEN_ID': 3, 'OPEN_OPTPARAM': 4}[e]
                 return [ERR(5), ERR(2, sub)]
             if e in ('KA', 'UPD', 'RR'):
                 return [NOP(st)]
